@@ -22,9 +22,21 @@ type failure struct {
 // stressSessions x stressInvocations invocations of every stress configuration.
 var stressSessions, stressInvocations = 2, 4
 
+// diamondRounds is the number of diamonds (3 invocations each) per session.
+const diamondRounds = 4
+
 func phasesOf(pr prog) []string {
 	if pr.Cache {
 		return []string{"cold", "warm"}
+	}
+	if pr.Diamond {
+		var out []string
+		for s := 0; s < stressSessions; s++ {
+			for i := 0; i < diamondRounds; i++ {
+				out = append(out, fmt.Sprintf("s%dr%d", s, i))
+			}
+		}
+		return out
 	}
 	if pr.Stress {
 		var out []string
@@ -66,7 +78,7 @@ func (s *supervisor) judge(pl []planned) ev.Coverage {
 	r := s.r
 	var fails []failure
 	fail := func(x planned, phase, oracle, what string, res *RunRes, extra map[string]interface{}) {
-		d := map[string]interface{}{"program": programs[x.prog].P.String(), "program_name": programs[x.prog].Name,
+		d := map[string]interface{}{"program": programs[x.prog].text(), "program_name": programs[x.prog].Name,
 			"configuration": x.cfg.ID(), "config": x.cfg, "phase": phase}
 		if res != nil {
 			d["run"] = *res
@@ -74,7 +86,7 @@ func (s *supervisor) judge(pl []planned) ev.Coverage {
 		for k, v := range extra {
 			d[k] = v
 		}
-		if programs[x.prog].Stress {
+		if programs[x.prog].Stress || programs[x.prog].Diamond {
 			phase = "" // the invocations of a stress configuration are one case
 		}
 		fails = append(fails, failure{x.prog, phase, x.cfg, oracle, what, d})
@@ -94,12 +106,15 @@ func (s *supervisor) judge(pl []planned) ev.Coverage {
 		placements                          = map[string]map[string]int{} // cfg id -> producer placement -> invocations
 		allPlacements, repeatPlacements     = ev.NewCounter(), ev.NewCounter()
 		stressInv, stressMC, stressMCRepeat int
+		diamondRoundsRun, diamondDraws      int
 	)
 	refs := make([]countRef, len(programs))
 	exps := make([]refeval.Expected, len(programs))
 	for i, pr := range programs {
 		refs[i] = countReference(pr.P)
-		exps[i] = refeval.Eval(pr.P)
+		if !pr.Diamond {
+			exps[i] = refeval.Eval(pr.P)
+		}
 	}
 	get := func(prog int, cfg string, phase string) (RunRes, bool) {
 		x, ok := s.results[runKey{prog, cfg, phase}]
@@ -152,7 +167,11 @@ func (s *supervisor) judge(pl []planned) ev.Coverage {
 				clusterRuns++
 			}
 			if res.Err != "" {
-				fail(x, ph, "error", "the run failed: "+clipStr(res.Err, 400), &res, nil)
+				oracle := "error"
+				if strings.Contains(res.Err, "invalid invocation reference") {
+					oracle = "error/invalid-invocation-reference"
+				}
+				fail(x, ph, oracle, "the run failed: "+clipStr(res.Err, 400), &res, nil)
 				continue
 			}
 			outcomes.Add(fmt.Sprintf("%d|%s|%s|%v", x.prog, ph, res.Multiset, res.Counters))
@@ -176,7 +195,11 @@ func (s *supervisor) judge(pl []planned) ev.Coverage {
 					}
 				}
 			}
-			if pr.P.NumShuffles() > 0 && produced > 0 {
+			if pr.Diamond && x.cfg.Exec == "vsys" {
+				diamondRoundsRun++
+				diamondDraws += res.FreshMachines
+			}
+			if (pr.Diamond || pr.P.NumShuffles() > 0) && produced > 0 {
 				nontrivial.Add(fmt.Sprintf("%d|%s|%s", x.prog, ph, id))
 			}
 			// (1) the reference evaluator: rows and callback observations
@@ -324,7 +347,7 @@ func (s *supervisor) judge(pl []planned) ev.Coverage {
 			sig := fmt.Sprintf("C04/%s%s/%s/%s/%s", programs[f.prog].Name, ph, f.cfg.Exec, dev, f.oracle)
 			failingRuns[sig] = len(fs)
 			f.detail["failing_configurations_with_this_oracle"] = len(fs)
-			r.Violate(sig, fmt.Sprintf("program %s {%s} under configuration %s: %s", programs[f.prog].Name, programs[f.prog].P, f.cfg.ID(), f.what), f.detail)
+			r.Violate(sig, fmt.Sprintf("program %s {%s} under configuration %s: %s", programs[f.prog].Name, programs[f.prog].text(), f.cfg.ID(), f.what), f.detail)
 		}
 	}
 	var sk []string
@@ -393,6 +416,9 @@ func (s *supervisor) judge(pl []planned) ev.Coverage {
 		"configurations_changing_observable_internal_behaviour":       changedTotal,
 		"configurations_changing_by_observable":                       perObs,
 		"single_deviation_effect_by_dimension":                        dimReport,
+		"diamond_rule":                                                fmt.Sprintf("a=Run(f); b=Run(g,a); c=Run(h,a,b) compared with a plain-Go reference and with the local executor: local default + cluster machines x task procs {1x2 (control), 2x1, 3x1, 3x2}, %d fresh sessions x %d rounds (3 invocations each) per configuration; a 'fresh machine' of a round is a machine that ran tasks of c without having run a task of a or b (it has to be sent a, b and c in dependency order)", stressSessions, diamondRounds),
+		"diamond_cluster_rounds":                                      diamondRoundsRun,
+		"diamond_fresh_machine_compilations":                          diamondDraws,
 		"stress_rule":                                                 fmt.Sprintf("2 combiner programs with 6 producer shards x {local default; cluster machines{2,3} x task procs/machine{1,2} x MachineCombiners{off,on}} x %d fresh sessions x %d invocations per session; the placement of the 6 producer shards on machines (A,B,C by first appearance, from the Worker.Run calls) is recorded per invocation", stressSessions, stressInvocations),
 		"stress_cluster_invocations":                                  stressInv,
 		"stress_distinct_producer_placements":                         allPlacements.Distinct(),
